@@ -551,4 +551,47 @@ stored ro slot: `_unpack_contents` calls `create_from_cap(None, ro_uri.rstrip(b"
 (The `rstrip` only matters for caps ending in spaces, which no known kind accepts.) -/
 def readerNode (stored : Bytes) (deep : Bool) : Node := createFromCap none (some stored) deep
 
+/-! ### reading a child entry out of a directory (`DirectoryNode._unpack_contents`, reader without write access) -/
+
+/-- `deep_immutable` that a directory passes to `create_from_cap` for its children:
+`not self.is_mutable()`, and `DirectoryNode.is_mutable()` asks the backing file node — so it is a
+function of the KIND of the directory cap: both immutable flavours, DIR2-CHK and DIR2-LIT (and
+nothing else that can be opened as a directory), are deep-immutable contexts. -/
+def dirChildDeep : FileKind → Bool
+  | .chk | .lit => true
+  | _ => false
+
+/-- `node.is_allowed_in_immutable_directory()`: known nodes say `not is_mutable()`; an UnknownNode says
+"no error and no rw_uri". `none`: CiphertextFileNode (verify-cap node) has no such method. -/
+def Node.allowedInImmutableDir : Node → Option Bool
+  | .known k cap => if k == .immutableVerifier then none else cap.inner.map (fun f => !f.isMutable)
+  | .unknown n => some (n.error.isNone && n.rw.isNone)
+
+def rstripSpaces (b : Bytes) : Bytes := (b.reverse.dropWhile (· == 32)).reverse
+
+inductive Unpacked
+  | valueError            -- non-empty rwcapdata in an immutable directory: the whole listing fails
+  | dropped               -- CapConstraintError from raise_error(), or not allowed in an immutable directory
+  | crash                 -- AttributeError: verify-cap node has no is_allowed_in_immutable_directory()
+  | child (n : Node)
+  deriving DecidableEq, Repr
+
+/-- one entry (ro_uri, rwcapdata) of a directory of kind `dk` as `_unpack_contents` turns it into a child, for a
+reader with no write access to the directory (`dk` one of DIR2-RO, DIR2-MDMF-RO, DIR2-CHK, DIR2-LIT: the
+rwcapdata is not decrypted, rw_uri = None). -/
+def unpackChild (dk : FileKind) (roSlot : Bytes) (rwcapNonEmpty : Bool) : Unpacked :=
+  let deep := dirChildDeep dk
+  if deep && rwcapNonEmpty then .valueError
+  else
+    let node := createFromCap none (orNone (some (rstripSpaces roSlot))) deep
+    let err : Option Err := match node with
+      | .unknown n => n.error
+      | .known .. => none
+    if err.isSome then .dropped
+    else if !deep then .child node
+    else match node.allowedInImmutableDir with
+      | none => .crash
+      | some true => .child node
+      | some false => .dropped
+
 end Tahoe.Uri
